@@ -9,7 +9,8 @@ from .. import core, execgen_set, execsuite, families, concsuite
 def run(R, ctx):
     rng = random.Random(R.seed * 31 + 11)
     execsuite.run_exec_suite(
-        R, ctx, name="sets", extra_lines=families.refused_changes_nothing(rng, 300 if R.tier == "quick" else 5000),
+        R, ctx, name="sets", extra_lines=families.refused_changes_nothing(rng, 300 if R.tier == "quick" else 5000) +
+        families.large_container_programs(random.Random(R.seed * 131 + 11), 60 if R.tier == "quick" else 1500, "set"),
         gens=[(1, execgen_set.SetGen())],
         nprog=(500, 8000), corpus="exec_c11", keys=execgen_set.KEYS,
         what="set commands (SADD, SREM, SISMEMBER, SCARD, SMEMBERS, SMOVE, SPOP and SRANDMEMBER with and without count in checker mode, "
